@@ -108,6 +108,9 @@ type FuncEnc struct {
 	Cache            map[string]any
 	curRet           *ssa.Return
 	summarized       map[*ssa.BasicBlock]bool
+	// CallHook is invoked before every static / interface call is encoded
+	// (inline assertions "at call #n to F" of a contract).
+	CallHook func(e *FuncEnc, in ssa.Instruction, name string, argVals []ssa.Value, args []string)
 	ErrFormats       map[string]string // fmt.Errorf format literal -> literal symbol (ghost errfmt)
 	BodyErrs         []string          // "request body could not be read/decoded" conditions seen so far
 }
@@ -1045,6 +1048,9 @@ func (e *FuncEnc) loopFrame(li *loopInfo, key, before, after string) {
 				}
 				switch a := x.Addr.(type) {
 				case *ssa.IndexAddr:
+					if al, isAl := a.X.(*ssa.Alloc); isAl && li.body[al.Block()] {
+						continue // an array allocated in this iteration: a fresh address
+					}
 					if !invariant(a.X) {
 						return
 					}
@@ -1091,11 +1097,43 @@ func (e *FuncEnc) loopFrame(li *loopInfo, key, before, after string) {
 				if bi, ok := c.Value.(*ssa.Builtin); ok {
 					if bi.Name() == "append" || bi.Name() == "copy" {
 						if st, ok := c.Args[0].Type().Underlying().(*types.Slice); ok {
+							hit := false
 							for _, lf := range e.leaves(st.Elem(), func(s string) string { return s }, 0) {
 								if lf.key == key {
+									hit = true
+								}
+							}
+							if !hit {
+								continue
+							}
+							if _, isStruct := st.Elem().Underlying().(*types.Struct); isStruct || bi.Name() == "copy" {
+								return
+							}
+							// s = append(s, ...) on a loop-carried slice that starts as a
+							// loop-invariant value: the cells written belong to that value's
+							// array (growth in place) or to arrays allocated during the loop
+							phi, ok := c.Args[0].(*ssa.Phi)
+							if !ok || phi.Block() != li.header {
+								return
+							}
+							var start ssa.Value
+							for pi, pr := range li.header.Preds {
+								if !li.body[pr] {
+									if start != nil && start != phi.Edges[pi] {
+										return
+									}
+									start = phi.Edges[pi]
+								}
+							}
+							if start == nil || !invariant(start) {
+								return
+							}
+							if _, have := e.val[start]; !have {
+								if _, isC := start.(*ssa.Const); !isC {
 									return
 								}
 							}
+							conds = append(conds, not(and(eq(sx("akind", "a"), "1"), eq(sx("elem_base", "a"), sx("sl_base", e.v(start))))))
 						}
 					}
 					continue
